@@ -361,6 +361,12 @@ out.append("contract " + F32 + "\n"
   "  ensures (ERR(RET) != 0 && ERR(RET) != E_UnexpectedEncodingType) ==> reader->failed == ERR(RET)\n"
   )
 out.append("job vm_fn_read_f32_spec\n  props C02 C04\n  enforce " + F32 + "\n  timeout 900\n")
+def reserve_contract(cxx, es):
+    key = "%s::reserve(unsigned long)" % cxx
+    out.append("contract " + key + "\n  requires FRESH(this)\n  assigns VT_G_ALLOC\n"
+      "  ensures VT_G_ALLOC >= OLD(VT_G_ALLOC) && (n <= (1UL << 56) ==> VT_G_ALLOC == OLD(VT_G_ALLOC) + %d * n) && (n > (1UL << 56) ==> VT_G_ALLOC >= (1UL << 56))\n" % es)
+    return key
+RSF = reserve_contract("std::vector<float>", 4)
 PB = "std::vector<float>::push_back(float &&)"
 out.append("contract " + PB + "\n"
   "  requires FRESH(this) && this->size_ < (1UL << 40)\n"
@@ -384,7 +390,7 @@ out.append("loop " + RPF + " #0\n"
   "  invariant vt_k < i ==> reader->src[vt_pos0 + vt_dl + 5 * vt_k] == FMT_F32\n"
   "  decreases size - i\n")
 out.append("job vm_fn_readpayload_vecf\n  props C02 C04 C10\n  pre vt_p = nondet_uchar(); vt_dl = nondet_ulong(); vt_val = nondet_ulong(); vt_k = nondet_ulong(); vt_pos0 = nondet_ulong();\n"
-  "  enforce " + RPF + "\n  loops\n  replace " + U64 + "\n  replace " + F32 + "\n  replace " + PB + "\n  timeout 1800\n"
+  "  enforce " + RPF + "\n  loops\n  replace " + U64 + "\n  replace " + F32 + "\n  replace " + PB + "\n  replace " + RSF + "\n  timeout 1800\n"
   "  note unbounded by LOOP CONTRACT: every declared element count up to 2^64-1; termination by the decreases clause\n")
 
 # ---- std::map / std::unordered_map <uint16_t, uint8_t>: the same loop-contract argument for the key / value loop.
@@ -401,6 +407,7 @@ def small_read(ct, tag, maxlen):
 RK16 = small_read("unsigned short", "u16", 3)
 RK8 = small_read("unsigned char", "u8", 2)
 def mapread(cxx, tag):
+    rs = reserve_contract(cxx, 4)
     em = "%s::emplace(std::pair<unsigned short, unsigned char> &&)" % cxx
     out.append("contract " + em + "\n"
       "  requires FRESH(this) && this->size_ < (1UL << 40)\n"
@@ -422,8 +429,57 @@ def mapread(cxx, tag):
       "  invariant reader->pos >= vt_pos0 + vt_dl && reader->pos - (vt_pos0 + vt_dl) >= 2 * i && reader->pos - (vt_pos0 + vt_dl) <= 5 * i\n"
       "  decreases size - i\n")
     out.append("job vm_fn_readpayload_%s\n  props C02 C10\n  pre vt_p = nondet_uchar(); vt_dl = nondet_ulong(); vt_val = nondet_ulong(); vt_k = nondet_ulong(); vt_pos0 = nondet_ulong();\n"
-      "  enforce " % tag + rp + "\n  loops\n  replace " + U64 + "\n  replace " + RK16 + "\n  replace " + RK8 + "\n  replace " + em + "\n  timeout 1800\n"
+      "  enforce " % tag + rp + "\n  loops\n  replace " + U64 + "\n  replace " + RK16 + "\n  replace " + RK8 + "\n  replace " + em + "\n  replace " + rs + "\n  timeout 1800\n"
       "  note unbounded by LOOP CONTRACT: every declared pair count up to 2^64-1; an element is only inserted after its key and value were read (>= 2 bytes), so allocation <= 2 x bytes consumed; a read after a failed read violates the callee's precondition\n")
 mapread("std::map<unsigned short, unsigned char>", "map")
 mapread("std::unordered_map<unsigned short, unsigned char>", "umap")
+
+# =========================================================================================================
+# Logical buffer with a narrow count member: LogicalBuffer<uint16_t[200], uint8_t>.  The byte length (count * 2, up to
+# 510) does not fit the count member's type, the element count (up to 255) exceeds the capacity (200): Size, WritePayload
+# and ReadPayload against the documented BINARY encoding with the uint64 codec and the block transfers replaced.
+LBT = "nop::LogicalBuffer<unsigned short[200], unsigned char, false>"
+out.append("c #define LB_PRE(v) (FRESH(v) && FRESH((v)->size_) && FRESHN((v)->data_, 400))")
+out.append("c #define LB_N(v) ((unsigned long)*(v)->size_)")
+k = "nop::Encoding<%s>::Size" % LBT
+out.append("contract " + k + "\n  requires LB_PRE(value)\n  assigns\n  ensures RET == 1 + VT_LEN_UINT(LB_N(value) * 2UL) + LB_N(value) * 2UL\n")
+out.append("job vm_fn_lb_size\n  props C06 C03\n  enforce " + k + "\n")
+RK = block_read("unsigned short", 2, 32, "lb16")
+k = "nop::Encoding<%s>::ReadPayload<vt::SpecReader>" % LBT
+data_ok = "(%s - vt_dl >= vt_val)" % AV
+good = "(vt_val <= 400 && vt_val % 2 == 0)"
+cl = ["requires SR_PRE(reader) && LB_PRE(value)", GH, VAL, "requires vt_n == vt_val / 2",
+      "assigns *value->size_, __CPROVER_object_whole(value->data_), reader->pos, reader->failed, reader->calls",
+      "ensures reader->pos <= reader->len",
+      "ensures ERR(RET) == 0 ==> (reader->failed == 0 && %s && %s && %s && LB_N(value) == vt_val / 2 && reader->pos == OLD(reader->pos) + vt_dl + vt_val)" % (HDR, good, data_ok),
+      "ensures (ERR(RET) == 0 && vt_val <= 400 && vt_k < vt_val) ==> ((unsigned char*)*value->data_)[vt_k] == reader->src[OLD(reader->pos) + vt_dl + vt_k]",
+      "ensures (%s && %s && !%s) ==> (ERR(RET) == E_InvalidContainerLength && LB_N(value) == OLD(LB_N(value)))" % (nofault(3), HDR, good),
+      "ensures (%s && %s && %s && !%s) ==> ERR(RET) == E_ReadLimitReached" % (nofault(3), HDR, good, data_ok),
+      "ensures (%s && %s && %s && %s) ==> ERR(RET) == 0" % (nofault(3), HDR, good, data_ok),
+      "ensures (ERR(RET) != 0 && ERR(RET) != E_UnexpectedEncodingType && ERR(RET) != E_InvalidContainerLength) ==> reader->failed == ERR(RET)"]
+out.append("contract %s\n%s" % (k, "".join("  %s\n" % c for c in cl)))
+out.append("job vm_fn_lb_readpayload\n  props C02 C04 C11\n  define VT_BLOCK_MAX=(1UL<<40)\n  pre vt_p = nondet_uchar(); vt_dl = nondet_ulong(); vt_val = nondet_ulong(); vt_n = nondet_ulong(); vt_k = nondet_ulong();\n"
+           "  enforce " + k + "\n  replace " + U64 + "\n  replace " + RK + "\n  timeout 1800\n"
+           "  note every declared byte length (all integer classes up to 2^64-1): more than capacity or odd is InvalidContainerLength and stores nothing\n")
+WKB = block_write("unsigned short", 2, 32, "lb16")
+k = "nop::Encoding<%s>::WritePayload<vt::SpecWriter>" % LBT
+LB = "(LB_N(value) * 2UL)"
+cl = ["requires SW_PRE(writer) && LB_PRE(value)",
+      "requires vt_n == LB_N(value) && vt_dl == VT_LEN_UINT(%s)" % LB,
+      "assigns (LB_N(value) <= 200 && vt_dl <= writer->cap - writer->pos): __CPROVER_object_upto(writer->dst + writer->pos, vt_dl)",
+      "assigns (LB_N(value) <= 200 && vt_dl > writer->cap - writer->pos && writer->pos < writer->cap): writer->dst[writer->pos]",
+      "assigns (LB_N(value) <= 200 && vt_dl + %s <= writer->cap - writer->pos): __CPROVER_object_upto(writer->dst + writer->pos + vt_dl, %s)" % (LB, LB),
+      "assigns writer->pos, writer->failed, writer->calls, writer->writes",
+      "ensures writer->pos <= writer->cap",
+      "ensures LB_N(value) > 200 ==> (ERR(RET) == E_InvalidContainerLength && writer->pos == OLD(writer->pos) && writer->writes == OLD(writer->writes))",
+      "ensures ERR(RET) == 0 ==> (LB_N(value) <= 200 && writer->failed == 0 && %s >= vt_dl + %s && writer->pos == OLD(writer->pos) + vt_dl + %s && writer->dst[OLD(writer->pos)] == VT_PREFIX_UINT(%s))" % (ROOM, LB, LB, LB),
+      "ensures (ERR(RET) == 0 && vt_k < vt_dl - 1) ==> writer->dst[OLD(writer->pos) + 1 + vt_k] == (unsigned char)(%s >> (8 * (vt_k & 7)))" % LB,
+      "ensures (ERR(RET) == 0 && vt_k2 < %s && %s <= 400) ==> writer->dst[OLD(writer->pos) + vt_dl + vt_k2] == ((const unsigned char*)*value->data_)[vt_k2]" % (LB, LB),
+      "ensures (ERR(RET) != 0 && ERR(RET) != E_InvalidContainerLength) ==> writer->failed == ERR(RET)",
+      "ensures (%s && LB_N(value) <= 200 && %s >= vt_dl + %s) ==> ERR(RET) == 0" % (wnofault(3), ROOM, LB),
+      "ensures (%s && LB_N(value) <= 200 && %s < vt_dl + %s) ==> ERR(RET) == E_WriteLimitReached" % (wnofault(3), ROOM, LB)]
+out.append("contract %s\n%s" % (k, "".join("  %s\n" % c for c in cl)))
+out.append("job vm_fn_lb_writepayload\n  props C03 C06\n  define VT_BLOCK_MAX=(1UL<<40)\n  define VT_TERM=0\n  pre vt_dl = nondet_ulong(); vt_n = nondet_ulong(); vt_k = nondet_ulong(); vt_k2 = nondet_ulong();\n"
+           "  enforce " + k + "\n  replace " + WK + "\n  replace " + WKB + "\n  timeout 1800\n"
+           "  note every count 0..255: above the capacity is InvalidContainerLength with nothing written, otherwise header == smallest class of the BYTE length\n")
 print("\n".join(out))
